@@ -54,7 +54,7 @@ theorem half_le_halfRoot {n : Nat} (hn : n ≠ 0) : 1 / 2 ≤ halfRoot n := by
 theorem Kn_two_le : Kn 2 * 1 ≤ 18 := by
   rw [Kn_eq, mul_one]
   have h1 : halfRoot 2 ≤ 1 := by
-    have h := halfRoot_pow (n := 2) (by omega)
+    have h := halfRoot_pow (n := 2) (by decide)
     have hp := halfRoot_pos 2
     nlinarith
   have h2 : Real.sqrt ((2:ℕ) + 3) ≤ 9 / 4 := by
@@ -90,7 +90,7 @@ theorem exists_root {n : Nat} (hn : n ≠ 0) {d : ℝ} (hd : 0 ≤ d) : ∃ a : 
   ⟨d ^ (1 / (n:ℝ)), rpow_inv_nonneg n hd, rpow_inv_pow hn hd⟩
 
 section
-variable {n : Nat} (hn : 2 ≤ n ∧ n ≤ 5) (m : Nat) {f : List ℝ → ℝ} {L : ℝ} (hf : LipCube n f L)
+variable {n : Nat} (hn : Ev.DimOK n) (m : Nat) {f : List ℝ → ℝ} {L : ℝ} (hf : LipCube n f L)
 include hn hf
 
 /-- one-sided cone: `F x ≥ F x₀ - 2L√(n+3)·a - slack` whenever `|x - x₀| ≤ a^n` -/
@@ -108,7 +108,7 @@ theorem minorant_interior {xl xr x δ M : ℝ} (hl0 : 0 ≤ xl) (hr1 : xr ≤ 1)
     (hxr : x ≤ xr) (hδ : 0 ≤ δ) (hδn : δ^n = xr - xl) (hM : Kn n * L ≤ M) :
     (f (imageCube n m xl) + f (imageCube n m xr)) / 2 - (M / 4) * δ - gridSlack n m L ≤
       f (imageCube n m x) := by
-  have hn0 : n ≠ 0 := by omega
+  have hn0 : n ≠ 0 := hn.ne_zero
   have hL := hf.nonneg (by omega : 0 < n)
   obtain ⟨a, ha, han⟩ := exists_root hn0 (sub_nonneg.2 hlx)
   obtain ⟨b, hb, hbn⟩ := exists_root hn0 (sub_nonneg.2 hxr)
@@ -133,7 +133,7 @@ theorem minorant_interior {xl xr x δ M : ℝ} (hl0 : 0 ≤ xl) (hr1 : xr ≤ 1)
 theorem minorant_left {xl xr x δ M : ℝ} (hl0 : 0 ≤ xl) (hr1 : xr ≤ 1) (hlx : xl ≤ x)
     (hxr : x ≤ xr) (hδ : 0 ≤ δ) (hδn : δ^n = xr - xl) (hM : Kn n * L ≤ M) :
     f (imageCube n m xl) - (M / 2) * δ - gridSlack n m L ≤ f (imageCube n m x) := by
-  have hn0 : n ≠ 0 := by omega
+  have hn0 : n ≠ 0 := hn.ne_zero
   have hL := hf.nonneg (by omega : 0 < n)
   have h0 : 0 ≤ x := le_trans hl0 hlx
   have h1 : x ≤ 1 := le_trans hxr hr1
@@ -153,7 +153,7 @@ theorem minorant_left {xl xr x δ M : ℝ} (hl0 : 0 ≤ xl) (hr1 : xr ≤ 1) (hl
 theorem minorant_right {xl xr x δ M : ℝ} (hl0 : 0 ≤ xl) (hr1 : xr ≤ 1) (hlx : xl ≤ x)
     (hxr : x ≤ xr) (hδ : 0 ≤ δ) (hδn : δ^n = xr - xl) (hM : Kn n * L ≤ M) :
     f (imageCube n m xr) - (M / 2) * δ - gridSlack n m L ≤ f (imageCube n m x) := by
-  have hn0 : n ≠ 0 := by omega
+  have hn0 : n ≠ 0 := hn.ne_zero
   have hL := hf.nonneg (by omega : 0 < n)
   have h0 : 0 ≤ x := le_trans hl0 hlx
   have h1 : x ≤ 1 := le_trans hxr hr1
